@@ -148,11 +148,10 @@ Definition mt_start (m : mntm) (w : list nat) : mzcfg :=
   (mt_init m, zinput (mt_blank m) w :: repeat (zblank (mt_blank m)) (mt_n m - 1)).
 Definition mt_final (m : mntm) (c : mzcfg) : Prop := In (fst c) (mt_finals m).
 
-(* final states carry no transitions; every listed entry has at least one alternative *)
+(* final states carry no transitions.  (An entry whose list of alternatives is empty is allowed: the
+   repaired run treats it like a missing entry, and mstep has no step from it.) *)
 Definition valid_mntm (m : mntm) : bool :=
-  forallb (fun q => negb (memb q (map fst (mt_trans m)))) (mt_finals m) &&
-  forallb (fun qr => forallb (fun e => negb (match snd e with [] => true | _ => false end)) (snd qr))
-          (mt_trans m).
+  forallb (fun q => negb (memb q (map fst (mt_trans m)))) (mt_finals m).
 
 (* the same deterministic table given as a one-tape multitape machine *)
 Definition mntm_of_dtm (m : dtm) : mntm :=
